@@ -69,6 +69,12 @@ pub enum Malformed {
     ClPlus,
     ClList,
     ClAlpha,
+    ClEmpty,
+    ClNegative,
+    ClHex,
+    ClJunkSuffix,
+    ClInnerSpace,
+    ClOverflow,
     TeGzip,
     TeGzipChunked,
     TeIdentity,
@@ -95,6 +101,12 @@ impl Malformed {
         Malformed::ClPlus,
         Malformed::ClList,
         Malformed::ClAlpha,
+        Malformed::ClEmpty,
+        Malformed::ClNegative,
+        Malformed::ClHex,
+        Malformed::ClJunkSuffix,
+        Malformed::ClInnerSpace,
+        Malformed::ClOverflow,
         Malformed::TeGzip,
         Malformed::TeGzipChunked,
         Malformed::TeIdentity,
@@ -271,6 +283,19 @@ impl RequestSpec {
             }
             Some(Malformed::ClAlpha) => {
                 headers.push(("content-length".into(), "abc".into()));
+                framing = Framing::None;
+                head_rejected = true;
+            }
+            Some(m @ (Malformed::ClEmpty | Malformed::ClNegative | Malformed::ClHex | Malformed::ClJunkSuffix | Malformed::ClInnerSpace | Malformed::ClOverflow)) => {
+                let v = match m {
+                    Malformed::ClEmpty => "",
+                    Malformed::ClNegative => "-3",
+                    Malformed::ClHex => "0x3",
+                    Malformed::ClJunkSuffix => "3x",
+                    Malformed::ClInnerSpace => "1 0",
+                    _ => "18446744073709551616",
+                };
+                headers.push(("content-length".into(), v.into()));
                 framing = Framing::None;
                 head_rejected = true;
             }
@@ -673,6 +698,7 @@ pub struct IoOptsSer {
     pub flush_alts: bool,
     pub shutdown_alts: bool,
     pub every_offset: bool,
+    pub buffered: bool,
 }
 
 impl Default for IoOptsSer {
@@ -684,6 +710,7 @@ impl Default for IoOptsSer {
             flush_alts: true,
             shutdown_alts: true,
             every_offset: false,
+            buffered: false,
         }
     }
 }
@@ -697,6 +724,7 @@ impl IoOptsSer {
             flush_alts: self.flush_alts,
             shutdown_alts: self.shutdown_alts,
             every_offset: self.every_offset,
+            buffered: self.buffered,
         }
     }
 }
